@@ -505,7 +505,10 @@ func (g *c17Gen) planRace() []*c17Plan {
 	ev := c17Ev{ev: &triggertypes.TransactionEvent{Name: "coin_received", Attributes: attrs}, isTx: true, shape: "race",
 		coq:  fmt.Sprintf("(EvTx %s %s [(%s, %s); (%s, %s)])", g.sym("coin_received"), g.lsym("coin_received"), g.sym("receiver"), g.sym(g.addrStr(to)), g.sym("amount"), g.sym(attrs[1].Value)),
 		desc: fmt.Sprintf("tx coin_received %v", attrs)}
-	acts, _ := g.genActions([]int{owner}, false)
+	acts, bad := g.genActions([]int{owner}, false)
+	for bad { // the race needs a creation that passes ValidateBasic
+		acts, bad = g.genActions([]int{owner}, false)
+	}
 	var out []*c17Plan
 	for _, k := range r.Perm(3) {
 		n.lastSigners = nil
@@ -573,7 +576,10 @@ func (g *c17Gen) planOrder() []*c17Plan {
 	}
 	create := func(ev c17Ev) *c17Plan {
 		n.lastSigners = nil
-		acts, _ := g.genActions([]int{owner}, false)
+		acts, bad := g.genActions([]int{owner}, false)
+		for bad { // must pass ValidateBasic: a refused creation would not advance the owner's sequence
+			acts, bad = g.genActions([]int{owner}, false)
+		}
 		pl := g.buildCreate([]int{owner}, []int{owner}, ev, acts, int64(150000+r.Intn(100000)), "order-create", false)
 		n.pendingSeq[owner]++
 		return pl
